@@ -54,7 +54,8 @@ def holders(x):
 
 @guarded('C13')
 def run_quantize(w, tname, s_self, s_quant, quant, t, mode, how, st=None):
-    """how: 'explicit' (rounding=mode) or 'default' (mode configured)"""
+    """how: 'explicit' (rounding=mode), 'default' (mode configured) or
+    'explicit-other' (rounding=mode while another mode is configured)"""
     cls = w.types[tname]
     out = []
     qv = O.val(quant)
@@ -66,11 +67,14 @@ def run_quantize(w, tname, s_self, s_quant, quant, t, mode, how, st=None):
     try:
         if how == 'default':
             O.set_mode(mode)
+        elif how == 'explicit-other':
+            # another mode is configured: the explicit one decides
+            O.set_mode(O.MODES[(O.MODES.index(mode) + 3) % len(O.MODES)])
         results = []
         for rep, amount in holders(x):
             q = cls(amount, w.units[s_self])
             try:
-                if how == 'explicit':
+                if how in ('explicit', 'explicit-other'):
                     r = q.quantize(quantum, O.mode_obj(mode))
                 else:
                     r = q.quantize(quantum)
@@ -271,7 +275,7 @@ def part(p, ts, modes):
     for quant in QUANTA:
         for t in ts:
             for mode in modes:
-                for how in ('explicit', 'default'):
+                for how in ('explicit', 'default', 'explicit-other'):
                     st.paths += 1
                     tie = (2 * t).denominator == 1 and t.denominator == 2
                     st.state((tname, s_self, s_quant, quant, t, mode),
